@@ -6,6 +6,9 @@ pub mod c05;
 pub mod c07;
 pub mod c08;
 pub mod c09;
+pub mod c13;
+pub mod c14;
+pub mod c20;
 
 use crate::runner::PropertyDef;
 
@@ -18,8 +21,11 @@ pub fn lookup(id: &str) -> Option<PropertyDef> {
 		"C07" => c07::def(),
 		"C08" => c08::def(),
 		"C09" => c09::def(),
+		"C13" => c13::def(),
+		"C14" => c14::def(),
+		"C20" => c20::def(),
 		_ => return None,
 	})
 }
 
-pub const ALL: &[&str] = &["C01", "C02", "C04", "C05", "C07", "C08", "C09"];
+pub const ALL: &[&str] = &["C01", "C02", "C04", "C05", "C07", "C08", "C09", "C13", "C14", "C20"];
